@@ -284,6 +284,7 @@ def run(ctx, only_fields=None, rule_prefix="R14"):
     root_body = None
     u_pos = None
     whole_borrows = []
+    ctor_calls = []
     for b in bodies:
         for i in range(b.nblocks):
             if b.is_cleanup(i):
@@ -299,6 +300,15 @@ def run(ctx, only_fields=None, rule_prefix="R14"):
                         al_ = ref_aliases(b, l_)
                         into_agg = any(s2["k"] == "assign" and s2["rv"]["k"] == "agg" and any(op_local(o) in al_ for o in s2["rv"]["ops"])
                                        for i2 in b.live_blocks() for s2 in b.stmts(i2))
+                        # ... or is handed to a private constructor that returns the per-call writer (a struct of the crate keeping the borrow)
+                        for cb_, t_, ai_ in ref_consumer_calls(b, l_):
+                            dl_ = t_.get("dest")
+                            if dl_ and not dl_.get("p"):
+                                wa_ = F.adts.get((b.locals[dl_["l"]].get("head") or {}).get("adt") or "")
+                                if wa_ and wa_["crate"] == CR and any(f_["ty"].startswith("&") and "mut" in f_["ty"][:12] and any(c_ in f_["ty"] for c_ in carr)
+                                                                       for v_ in wa_["variants"] for f_ in v_["fields"]):
+                                    into_agg = True
+                                    ctor_calls.append((b, cb_, t_))
                         if into_agg or root_body is None:
                             root_body, u_pos = b, (i, j)
                         if not into_agg:
@@ -384,6 +394,16 @@ def run(ctx, only_fields=None, rule_prefix="R14"):
                         leak = [x for x in o if x[0] == "arg" and x[1] == 1 and x[2] and x[2][-1] in scratch_names]
                         ctx.check(not leak, R3, "%s.%s#fresh" % (s["rv"]["adt"], fname), loc(root_body, i),
                                   "per-call writer field `%s` is initialised from scratch state %s" % (fname, leak))
+        # the writer may be built by a private constructor: its arguments are judged the same way (the lent state itself excepted)
+        for cb0, cbb, ct in ctor_calls:
+            if cb0 is not root_body:
+                continue
+            nagg += 1
+            for ai_, op in enumerate(ct.get("args", [])):
+                o = pr.operand(op)
+                leak = [x for x in o if x[0] == "arg" and x[1] == 1 and x[2] and x[2][-1] in scratch_names]
+                ctx.check(not leak, R3, "%s.arg%d#fresh" % ((ct.get("callee") or {}).get("name"), ai_), loc(root_body, cbb),
+                          "argument %d of the per-call writer's constructor is initialised from scratch state %s" % (ai_, leak))
         ctx.floor(R3, "per-call writer aggregates in the entry body", nagg, 1)
     # ---- R14.4 statics
     for st in F.statics:
